@@ -168,6 +168,12 @@ impl<'a> __Type<'a> {
                 possible_types
                     .iter()
                     .filter(|ty| self.visible_types.contains(ty.as_str()))
+                    .filter(|ty| {
+                        matches!(
+                            self.registry.types.get(ty.as_str()),
+                            Some(registry::MetaType::Object { .. })
+                        )
+                    })
                     .map(|ty| __Type::new(self.registry, self.visible_types, ty))
                     .collect(),
             )
